@@ -10,11 +10,11 @@ namespace Kernel
 def tetAddFace (k : Kernel) (hes : List Nat) (chk : Bool) : Kernel × Option Nat :=
   if hes.length != 3 then (k, none) else k.addFace hes chk
 
-/-- `add_cell(halffaces)` override: four halffaces, each a triangle, spanning exactly four vertices (64c6d58) -/
+/-- `add_cell(halffaces)` override: four halffaces, each a triangle, spanning exactly four vertices, no ordered vertex pair used twice (64c6d58, 4614b67) -/
 def tetAddCell (k : Kernel) (hfs : List Nat) (chk : Bool) : Kernel × Option Nat :=
   if hfs.length != 4 then (k, none)
   else if hfs.any (fun hf => (k.faceAt (eOf hf)).length != 3) then (k, none)
-  else if k.spanVertCount hfs != 4 then (k, none)
+  else if k.spanVertCount hfs != 4 || !k.noParallel hfs then (k, none)   -- 64c6d58, 4614b67
   else k.addCell hfs chk
 
 /-- `add_face(vertices)` override (cc:58-69): exactly three vertices, then the base-class
